@@ -194,10 +194,22 @@ func (h *hammerDest) Write(p []byte) (int, error) {
 	return len(p), nil
 }
 
+var cancelledCtx, expiredCtx = func() (context.Context, context.Context) {
+	c, cancel := context.WithCancel(context.Background())
+	cancel()
+	e, cancel2 := context.WithDeadline(context.Background(), time.Unix(1, 0))
+	_ = cancel2
+	return c, e
+}()
+
 // emit logs one record through one of the front-end entry points (all of them are "logging a record")
 func emit(l *logger.Logger, variant int, level slog.Level, msg string, args []any) {
 	ctx := context.Background()
-	switch variant % 3 {
+	switch variant % 5 {
+	case 3: // a context that is already cancelled: logging is not an operation a context can call off
+		l.Log(cancelledCtx, level, msg, args...)
+	case 4:
+		l.Logf(expiredCtx, level, "%s", msg)
 	case 0:
 		l.Log(ctx, level, msg, args...)
 	case 1:
@@ -322,6 +334,24 @@ func main() {
 	rng := rand.New(rand.NewSource(vio.Seed()))
 	w := vio.Create(*out)
 	defer w.Close()
+	// size sweep first (the buffer pool is still empty): one goroutine, message lengths 850..1750 in steps of one, so the
+	// finished line takes every length around the pooled buffer's initial capacity (1 KiB) and its first regrowth
+	for _, kind := range []string{"nano", "text", "json"} {
+		d := &dest{log: evlog.New(), kind: kind, rng: rand.New(rand.NewSource(rng.Int63())), fast: true}
+		l := logger.New(mkHandler(kind, d, logger.LevelInfo))
+		b, gid := d.buf()
+		for n := 850; n <= 1750; n++ {
+			id := n
+			msg := fmt.Sprintf("rec#%d#", id) + strings.Repeat("s", n)
+			c := &captureOne{}
+			logger.New(mkHandler(kind, c, logger.LevelInfo)).Info(msg)
+			d.expect.Store(id, mask(kind, c.line))
+			b.Emit(ev{E: "lb", G: gid, R: id, En: true})
+			l.Info(msg)
+			b.Emit(ev{E: "le", G: gid, R: id})
+		}
+		w.Put(map[string]any{"kind": kind, "evs": d.log.Merge(), "threshold": 4, "sweep": true})
+	}
 	for _, kind := range []string{"nano", "text", "json"} {
 		w.Put(hammer(kind, *hammerN, rng))
 	}
@@ -438,7 +468,7 @@ func main() {
 							useLogger, useChain = sh.l, sh.chain
 						}
 						enabled := level >= threshold
-						variant := r.Intn(3)
+						variant := r.Intn(5)
 						if enabled { // what this very call writes when logged alone on a fresh identical chain
 							c := &captureOne{}
 							emit(apply(logger.New(mkHandler(kind, c, threshold)), useChain), variant, level, msg, args)
